@@ -39,6 +39,7 @@ From AV Require Import Generated.Table Generated.Style Generated.Render Generate
   Proofs.Lossy Proofs.Git Proofs.LsParse Proofs.Roff Proofs.ParseCfg Proofs.Render Proofs.Svg Proofs.NoPanic.
 From AV Require Import Generated.ParserFn Proofs.ParserGen Generated.StripFn Proofs.StripGen Generated.WinconFn Proofs.WinconGen Generated.LossyFn
   Generated.LsFn Generated.GitFn Generated.RoffFn Proofs.NoPanicGen.
+From AV Require Import Model.Utf8parse Model.Imp Generated.Utf8parseFn Proofs.Utf8parseGen.
 Import ListNotations.
 Local Open Scope N_scope.
 
@@ -366,3 +367,22 @@ Theorem c04_example :
   ss_run sb_new (writer_of [Accept 1; Fail Interrupted; Accept 0; Fail Other])
          [OWrite c04_hostile; OWriteAll c04_hostile; OWriteVectored [[]; c04_hostile]; OWriteFmt [[240; 159]; c04_hostile]; OFlush] <> None.
 Proof. vm_compute. repeat split; discriminate. Qed.
+
+(* the third-party decoder `utf8parse`, translated from the registry source of the version Cargo.lock pins
+   (Generated/Utf8parseFn.v, tools/gen_fn_utf8parse.py): no step panics (the shifts stay inside the u32), whatever
+   the decoder holds and whatever the byte *)
+Theorem c04_translated_utf8parse_never_panics :
+  forall p r b, g_u8_parser_advance p r b <> None.
+Proof. exact translated_advance_never_panics. Qed.
+
+Theorem c04_translated_utf8parse_run_never_panics :
+  forall bs p r, g_u8_run p r bs <> None.
+Proof. exact translated_run_never_panics. Qed.
+
+(* ... and its one unsafe call, `char::from_u32_unchecked(point)` (read as the identity by the translation), is
+   within its contract: every code point a decoder started from Parser::new() hands to its receiver is a Unicode
+   scalar value (no surrogate, below 0x110000) *)
+Theorem c04_translated_utf8parse_unchecked_char_is_scalar :
+  forall bs p r, Forall (fun b => b < 256) bs ->
+  g_u8_run g_u8_parser_new [] bs = Some (p, r) -> Forall u8_out_scalar r.
+Proof. exact unchecked_char_is_scalar. Qed.
